@@ -81,7 +81,7 @@ def goodmanCorrection( stressRange, ultimateStrength, n=1.0 ):
     sigmaMean = ( stressRange[ 0 ] + stressRange[ 1 ] ) / 2.0
     sigmaAlt = ( stressRange[ 1 ] - stressRange[ 0 ] ) / 2.0
 
-    rst = sigmaAlt / ( n - sigmaMean / ultimateStrength )
+    rst = sigmaAlt / ( 1 - sigmaMean / ultimateStrength )
 
     return rst
 
@@ -159,7 +159,7 @@ def soderbergCorrection( stressRange, yieldStrength, n=1.0 ):
     sigmaMean = ( stressRange[ 0 ] + stressRange[ 1 ] ) / 2.0
     sigmaAlt = ( stressRange[ 1 ] - stressRange[ 0 ] ) / 2.0
 
-    rst = sigmaAlt / ( n - sigmaMean / yieldStrength )
+    rst = sigmaAlt / ( 1 - sigmaMean / yieldStrength )
 
     return rst
 
@@ -237,7 +237,7 @@ def gerberCorrection( stressRange, ultimateStrength, n=1.0 ):
     sigmaMean = ( stressRange[ 0 ] + stressRange[ 1 ] ) / 2.0
     sigmaAlt = ( stressRange[ 1 ] - stressRange[ 0 ] ) / 2.0
 
-    rst = 1 - ( n * sigmaMean / ultimateStrength) ** 2
-    rst = n * sigmaAlt / rst
+    rst = 1 - ( sigmaMean / ultimateStrength) ** 2
+    rst = sigmaAlt / rst
 
     return rst
